@@ -57,7 +57,7 @@ def true_ranks(T):
     return out, ok
 
 
-def run(c, seed, T, nswp, cache, vld, cb=None, m=None):
+def run(c, seed, T, nswp, cache, vld, cb=None, m=None, **more):
     d = len(c['shape'])
     Y0 = space.tt(c['shape'], [1] + [c['r0']] * (d - 1) + [1], 'gen', seed, tag=29)
     b0 = ref.core_bytes(Y0)
@@ -65,6 +65,7 @@ def run(c, seed, T, nswp, cache, vld, cb=None, m=None):
     ca = RecordingCache() if cache else None
     info = {}
     kw = dict(nswp=nswp, m=m, dr_min=c['dr'][0], dr_max=c['dr'][1], info=info, cache=ca, cb=cb, m_cache_scale=10 ** 9)
+    kw.update(more)
     if vld:
         I = space.grid_array(c['shape'])
         I = I[::2] if len(I) > 3 else I
@@ -156,6 +157,19 @@ def check_config(c):
             Yn, inn, _, _, _, _ = run(c, seed, T, n, False, vld)
             res.check(ref.core_bytes(Yn) == ref.core_bytes(states[n]) and inn.get('nswp') == n and inn.get('stop') == 'nswp', 'prefix', dict(case, nswp=n),
                       lambda: 'nswp=%d is not the %d-th state of the longer run (stop=%r)' % (n, n, inn.get('stop')), tags)
+        # two stop criteria together: an accuracy threshold that may or may not be reached never lifts the sweep limit; when it stops the
+        # run earlier, the result is the state of that sweep
+        for e_thr in (1e-14, 1e-3):
+            for extra in (dict(e=e_thr), dict(e_vld=e_thr) if vld else None):
+                if extra is None:
+                    continue
+                res.ev()
+                Ye, ie, _, _, _, _ = run(c, seed, T, NS, False, vld, **extra)
+                ne = ie.get('nswp')
+                oks = isinstance(ne, int) and 1 <= ne <= NS and ie.get('stop') in ('nswp', 'e', 'e_vld') and (ie.get('stop') != 'nswp' or ne == NS)
+                oks = oks and ref.core_bytes(Ye) == ref.core_bytes(states[ne])
+                res.check(oks, 'stop.two_criteria', dict(case, **extra),
+                          lambda: 'nswp=%d with %s: stopped by %r after %r sweeps (or the result is not that sweep\'s state)' % (NS, extra, ie.get('stop'), ne), tags)
         # ---- cache transparency ---------------------------------------------------------------------
         if ic.get('stop') != 'conv':
             same = ref.core_bytes(Yu) == ref.core_bytes(Yc)
